@@ -202,24 +202,29 @@ class Unit:
             by_prog.setdefault(o.prog, []).append(o)
         todo = [p for p in progs if p.name in by_prog]
         have = {}
+        need = {}
+        done_ids = set(o.oid for o in ctx.obligations if o.backend == 'kani')
         for p in todo:
             hs = self.fallback_harnesses(ctx, p, [o.fn for o in by_prog[p.name]])
             if hs:
                 have[p.name] = hs
+                missing = [h for h in hs if '%s/kani:%s' % (p.name, h[0]) not in done_ids]
+                if missing:
+                    need[p.name] = missing
         if not have:
             return
         run_progs = [p for p in todo if p.name in have]
         saved_h = self.kani_harnesses
-        self.kani_harnesses = lambda c, pr: have.get(pr.name, [])
-        before = len(ctx.obligations)
+        self.kani_harnesses = lambda c, pr: need.get(pr.name, [])
         try:
-            if not all(p.name in already for p in run_progs):
-                self.kani_all(ctx, [p for p in run_progs if p.name not in already])
+            if need:
+                self.kani_all(ctx, [p for p in run_progs if p.name in need])
         finally:
             self.kani_harnesses = saved_h
         for p in run_progs:
-            ko = [o for o in ctx.obligations if o.backend == 'kani' and o.prog == p.name]
-            if ko and all(o.status in ('discharged', 'failed') for o in ko):
+            want_ids = set('%s/kani:%s' % (p.name, h[0]) for h in have[p.name])
+            ko = [o for o in ctx.obligations if o.backend == 'kani' and o.oid in want_ids]
+            if len(ko) == len(want_ids) and all(o.status in ('discharged', 'failed') for o in ko):
                 dropped = by_prog[p.name]
                 ctx.obligations = [o for o in ctx.obligations if o not in dropped]
                 why = (dropped[0].detail or '').split('\n')[1:3]
